@@ -126,7 +126,15 @@ def run(tier):
         lines = ["case %s 60" % cid, "ctx 0", "open 0 %s r" % path, "sink 0 %s" % sinkA, "init_read 0 0"]
         if not detached:
             lines += ["read 0 %d" % n for n in sizes] + ["close 0"]
-        lines += ["free 0", "echo second", "ctx 0", "open 0 %s r" % path, "sink 0 %s" % sinkB, "init_read 0 0"]
+        lines += ["free 0", "echo second", "ctx 0"]
+        if i % 4 == 1:
+            # the process has no standard descriptors and the target, opened for reading and writing (as a download target is),
+            # is given descriptor 0, 1 or 2; the library runs with its built-in logging defaults: nothing may reach the file
+            k = (i // 4) % 3
+            lines += ["closelow 3"] + ["open %d /dev/null r" % (13 + j) for j in range(k)] + ["open 0 %s rw" % path]
+        else:
+            lines += ["open 0 %s r" % path]
+        lines += ["sink 0 %s" % sinkB, "init_read 0 0"]
         rfirst = order[0] == "R"; pfirst = order[0] == "P"
         if rfirst and not detached:
             lines += ["read 0 %d" % n for n in sizes]
